@@ -307,6 +307,16 @@ def load_known():
     return json.load(open(p)).get("findings", [])
 
 
+def candidate_known(known, harness_fn, labels):
+    """an open finding listing this site whose labels cover every label the solver reported as failed"""
+    for k in known:
+        if k.get("status") != "open" or harness_fn not in k.get("sites", []):
+            continue
+        if set(labels) <= set(k.get("labels", [])) | set(k.get("solver_labels", [])):
+            return k
+    return None
+
+
 def match_known(known, prop, harness_fn, labels, panic):
     """A finding suppresses a failure only if the harness is one of the listed sites AND every failing label
     (or the panic location) is one of the listed labels: a different clause failing at the same site, or the
@@ -361,6 +371,7 @@ def do_check(prop, tier, seed, only=None, write_evidence=True):
         known = load_known()
         bins = None
         violations, known_hits, inconclusive, holds = [], [], [], []
+        failed_q, unreplayed = [], []
         samples = []
         for h in names:
             e = results[h]
@@ -377,47 +388,86 @@ def do_check(prop, tier, seed, only=None, write_evidence=True):
             if verdict == "FAILED":
                 labels = sorted({f["description"] for f in e["failed"] if f["status"] == "Failure" and "unwinding" not in f["description"]})
                 rec["failed_checks"] = [f for f in e["failed"] if f["status"] == "Failure"][:8]
-                # concrete playback (single job), then native replay
-                pr, praw, _ = run_kani([h], tmax, f"{prop}-{tier}-pb-{meta['fn']}", playback=True)
-                tests = extract_playback(praw)
-                if bins is None:
-                    bins = build_native()
-                confirmed = None
-                tried = []
-                if bins:
-                    for (lab, vals) in tests:
-                        nat = native_replay(bins, meta["fn"], vals)
-                        ok, how = reproduces(set(labels) | {lab}, nat)
-                        tried.append({"check": lab, "vals": vals, "native": nat, "reproduces": ok, "how": how})
-                        if ok and confirmed is None:
-                            confirmed = tried[-1]
-                if confirmed:
-                    nat = confirmed["native"]
-                    nat_labels = sorted({l for r in nat.values() for l in r["failed"]})
-                    panic = next((r["panic"] for r in nat.values() if r["panic"]), None)
-                    rp = write_replay(prop, meta, confirmed, labels, e)
-                    k = match_known(known, prop, meta["fn"], nat_labels or labels, panic)
-                    rec["replay"] = rp
-                    rec["native_labels"] = nat_labels
-                    rec["native_panic"] = panic
-                    if k:
-                        rec["result"] = "KNOWN-FINDING"
-                        rec["finding"] = k["id"]
-                        known_hits.append((k, meta, nat_labels, panic))
-                    else:
-                        rec["result"] = "VIOLATION"
-                        violations.append((meta, rp, nat_labels or labels, panic))
-                else:
-                    rec["result"] = "INCONCLUSIVE"
-                    rec["reason"] = "counterexample did not reproduce natively (encoding or harness error)" if tests else "kani reported a failure but printed no concrete playback"
-                    rec["tried"] = [{k2: v for k2, v in t.items() if k2 != "native"} for t in tried][:3]
-                    inconclusive.append((h, rec["reason"]))
+                failed_q.append((h, meta, e, rec, labels))
             elif verdict == "INCONCLUSIVE":
                 inconclusive.append((h, reason))
             else:
                 holds.append(h)
             rec["functions_encoded"] = len(e["functions"])
             samples.append(rec)
+        # ---- failed harnesses: known-finding witnesses first (native replay of the recorded input), then
+        # solver playback (one sequential Kani run for at most CV_PLAYBACK_CAP harnesses, cheapest first)
+        need_pb = []
+        for item in failed_q:
+            (h, meta, e, rec, labels) = item
+            k = candidate_known(known, meta["fn"], labels)
+            if k and k.get("witness"):
+                if bins is None:
+                    bins = build_native()
+                if bins:
+                    vals = [[int(b, 16)] for b in k["witness"][meta["fn"]].split(",")] if meta["fn"] in k["witness"] else None
+                    if vals is not None:
+                        nat = native_replay(bins, meta["fn"], vals)
+                        ok, how = reproduces(set(labels), nat)
+                        nat_labels = sorted({l for r in nat.values() for l in r["failed"]})
+                        panic = next((r["panic"] for r in nat.values() if r["panic"]), None)
+                        if ok and match_known(known, prop, meta["fn"], nat_labels or labels, panic) is k:
+                            rec["result"] = "KNOWN-FINDING"
+                            rec["finding"] = k["id"]
+                            rec["native_labels"] = nat_labels
+                            rec["native_panic"] = panic
+                            rec["witness"] = k["witness"][meta["fn"]]
+                            rec["how"] = "solver: harness FAILED with exactly the recorded labels; recorded witness replayed natively: " + how
+                            known_hits.append((k, meta, nat_labels, panic))
+                            continue
+            need_pb.append(item)
+        cap = int(os.environ.get("CV_PLAYBACK_CAP", 3))
+        need_pb.sort(key=lambda it: (it[2]["duration_s"] or 1e9))
+        pb_now, pb_skipped = need_pb[:cap], need_pb[cap:]
+        tests_by_h = {}
+        if pb_now:
+            log(f"concrete playback for {len(pb_now)} failed harness(es)" + (f" ({len(pb_skipped)} more not replayed: cap)" if pb_skipped else ""))
+            for (h, meta, e, rec, labels) in pb_now:
+                pr, praw, _ = run_kani([h], tmax, f"{prop}-{tier}-pb-{meta['fn']}", playback=True)
+                tests_by_h[h] = extract_playback(praw)
+            if bins is None:
+                bins = build_native()
+        for (h, meta, e, rec, labels) in pb_now:
+            tests = tests_by_h.get(h, [])
+            confirmed = None
+            tried = []
+            if bins:
+                for (lab, vals) in tests:
+                    nat = native_replay(bins, meta["fn"], vals)
+                    ok, how = reproduces(set(labels) | {lab}, nat)
+                    tried.append({"check": lab, "vals": vals, "native": nat, "reproduces": ok, "how": how})
+                    if ok and confirmed is None:
+                        confirmed = tried[-1]
+            if confirmed:
+                nat = confirmed["native"]
+                nat_labels = sorted({l for r in nat.values() for l in r["failed"]})
+                panic = next((r["panic"] for r in nat.values() if r["panic"]), None)
+                rp = write_replay(prop, meta, confirmed, labels, e)
+                k = match_known(known, prop, meta["fn"], nat_labels or labels, panic)
+                rec["replay"] = rp
+                rec["native_labels"] = nat_labels
+                rec["native_panic"] = panic
+                if k:
+                    rec["result"] = "KNOWN-FINDING"
+                    rec["finding"] = k["id"]
+                    known_hits.append((k, meta, nat_labels, panic))
+                else:
+                    rec["result"] = "VIOLATION"
+                    violations.append((meta, rp, nat_labels or labels, panic))
+            else:
+                rec["result"] = "INCONCLUSIVE"
+                rec["reason"] = "counterexample did not reproduce natively (encoding or harness error)" if tests else "kani reported a failure but printed no concrete playback"
+                rec["tried"] = [{k2: v for k2, v in t.items() if k2 != "native"} for t in tried][:3]
+                inconclusive.append((h, rec["reason"]))
+        for (h, meta, e, rec, labels) in pb_skipped:
+            rec["result"] = "FAILED-NOT-REPLAYED"
+            rec["reason"] = "solver found a counterexample; not replayed (playback cap), see the replayed ones"
+            unreplayed.append((h, labels))
         funcs = sorted({f for h in names for f in results[h]["functions"]})
         wall_total = time.time() - t_start
         # ---- report
@@ -427,6 +477,8 @@ def do_check(prop, tier, seed, only=None, write_evidence=True):
         for (meta, rp, labs, panic) in violations:
             print(f"VIOLATION property={prop} replay={rp}")
             log(f"  harness={meta['harness']} labels={labs} panic={panic}")
+        for (h, labs) in unreplayed:
+            print(f"FAILED-NOT-REPLAYED property={prop} harness={h} labels={labs}")
         for (h, why) in inconclusive:
             print(f"INCONCLUSIVE property={prop} harness={h} reason={why}")
         print(f"SUMMARY property={prop} tier={tier} harnesses={len(names)} holds={len(holds)} known={len(known_hits)} "
@@ -435,7 +487,7 @@ def do_check(prop, tier, seed, only=None, write_evidence=True):
             write_evidence_file(prop, tier, seed, samples, funcs, holds, known_hits, violations, inconclusive, wall_total, names, results)
         if violations:
             return 1
-        if inconclusive:
+        if inconclusive or unreplayed:
             return 2
         return 0
 
@@ -575,9 +627,12 @@ def do_run(names, timeout=900):
         reg = load_registry()
         by = {r["fn"]: r for r in reg}
         by.update({r["harness"]: r for r in reg})
+        if names and names[0] == "-r":
+            rx = re.compile(names[1])
+            names = [r["fn"] for r in reg if rx.search(r["fn"]) and not r.get("sampled")]
         full = [by[n]["harness"] if n in by else n for n in names]
         results, raw, wall = run_kani(full, timeout, "adhoc")
-        for h in full:
+        for h in sorted(full, key=lambda h: results[h]["duration_s"] or 1e9):
             e = results[h]
             v, why = classify(e)
             print(h, v, why, "t=%.1fs" % (e["duration_s"] or -1), "solver=%s" % e["stats"].get("runtime_solver_s"),
